@@ -348,6 +348,8 @@ func iteOpt(c, a, b *Term) *Term {
 // dynamic type tags for interface values
 var typeTags = map[string]int64{}
 var typeTagNames = map[int64]string{}
+var typeTagTypes = map[int64]types.Type{}
+var seenIfaces = map[string]types.Type{} // named interface types seen as static types of converted values
 
 func typeTag(t types.Type) *Term {
 	if t == nil {
@@ -359,6 +361,9 @@ func typeTag(t types.Type) *Term {
 		id = int64(len(typeTags) + 1)
 		typeTags[n] = id
 		typeTagNames[id] = n
+	}
+	if _, ok := typeTagTypes[id]; !ok {
+		typeTagTypes[id] = t
 	}
 	return mkInt(id)
 }
